@@ -76,6 +76,11 @@ struct log_ctx {
 
 static struct log_ctx log_ctx = { NULL, 0, 0, 0, 0, 0, { '\0' } };
 
+#if WITH_PTHREADS
+#include <pthread.h>
+static pthread_mutex_t log_fprintf_error_mutex = PTHREAD_MUTEX_INITIALIZER;
+#endif /* WITH_PTHREADS */
+
 
 /*****************************************************************************
  *  Static Prototypes
@@ -376,18 +381,30 @@ _log_aux (int errnum, int priority, char *msgbuf, int msgbuflen,
         syslog (priority, "%s", sbuf);
     }
     if (log_ctx.fp && (priority <= log_ctx.priority)) {
+        int rc;
+        int saved_errno;
+
         errno = 0;
-        if (fprintf (log_ctx.fp, "%s", buf) == EOF) {
+        rc = fprintf (log_ctx.fp, "%s", buf);
+        saved_errno = errno;
+#if WITH_PTHREADS
+        (void) pthread_mutex_lock (&log_fprintf_error_mutex);
+#endif /* WITH_PTHREADS */
+        if (rc == EOF) {
             if (!log_ctx.got_fprintf_error) {
                 syslog (LOG_ERR,
                     "Failed logfile write: %s: messages may have been dropped",
-                    (errno != 0) ? strerror (errno) : "Unspecified error");
+                    (saved_errno != 0) ? strerror (saved_errno)
+                                       : "Unspecified error");
                 log_ctx.got_fprintf_error = 1;
             }
         }
         else if (log_ctx.got_fprintf_error) {
             log_ctx.got_fprintf_error = 0;
         }
+#if WITH_PTHREADS
+        (void) pthread_mutex_unlock (&log_fprintf_error_mutex);
+#endif /* WITH_PTHREADS */
     }
     return;
 }
